@@ -325,13 +325,13 @@ impl Kind for ScaleKind {
                 violate(View::Scale, &format!("orphaned group of {} objects: only {} were destroyed by the final drop", n, d));
             }
             let (calls, pops, visits, edges) = (cn[0], cn[1], cn[2], cn[3]);
-            if visits > 2 * n + 2 {
+            if visits > 8 * n + 8 {
                 violate(
                     View::Scale,
-                    &format!("tracing a group of {} objects scanned {} link tables over {} trace(s) (bound 2N+2): not one bounded visit per object", n, visits, calls),
+                    &format!("tracing a group of {} objects scanned {} link tables over {} trace(s) (bound 8N+8): not one bounded visit per object", n, visits, calls),
                 );
             }
-            if pops > 2 * (n + adoptions) + 2 || edges > 4 * (n + adoptions) + 4 {
+            if pops > 8 * (n + adoptions) + 8 || edges > 16 * (n + adoptions) + 16 {
                 violate(
                     View::Scale,
                     &format!("tracing a group of {} objects / {} adoptions popped {} worklist items and scanned {} entries over {} trace(s): not linear", n, adoptions, pops, edges, calls),
@@ -394,7 +394,7 @@ impl Kind for ScaleKind {
     }
     fn assumptions() -> Vec<String> {
         vec![
-            "sizes up to 20k (quick) / 300k ring, 400 clique (thorough); linearity is judged by hook counters (tables scanned <= 2N+2, pops <= 2(N+E)+2), wall time is only reported".into(),
+            "sizes up to 20k (quick) / 300k ring, 400 clique (thorough); linearity is judged by hook counters (tables scanned <= 8N+8, pops <= 8(N+E)+8 (any constant number of visits per object is accepted; growth is judged by the instruction-count probes)), wall time is only reported".into(),
             "the final drop runs on a thread with a 128 KiB stack; any death of the process there is reported as a violation".into(),
         ]
     }
